@@ -188,5 +188,42 @@ def run(rep):
               f'the exported constants are {order[:6]}..; expected the constants\' own names in declaration order {exp_names[:6]}..', ok_detail=f'{len(order)} items, own names, declaration order')
     rep.floor('model constants compared', len(expected), 30)
     # the section reaches the assembled output unconditionally (shared rule, lib/sections.py)
-    from sections import check_wiring
+    from sections import check_wiring, wiring
     check_wiring(rep, 'C15.section-wiring', ['pub const #name : #', 'pub const #'], 'constants-section')
+    # ... and unaltered: what the assembling function puts into the output, instantiated on the same model list, is item for item what the
+    # section produced (a filter, a rename or a post-processing step applied on the way is seen here)
+    w = wiring(ogp)
+    if w is not None:
+        tq, res = w
+        holes = []
+        for name, text, bad in res:
+            pass
+        tops = ogp.summaries[tq]
+        outs = E.find_templates(tops, lambda t: t[3] == tq and sum(1 for it in t[2] if it[0] in ('hole', 'rep')) >= 8)
+
+        def items_of(its):
+            for it in its:
+                if it[0] == 'hole':
+                    yield it[1], it[2]
+                elif it[0] == 'rep':
+                    for x in items_of(it[1]):
+                        yield x
+        cands = []
+        for hname, term in (items_of(outs[0][2]) if outs else []):
+            reads = []
+            E.walk(term, lambda x: reads.append(1) if x[0] == 'f' and x[2] == 'constants' else None)
+            if reads and E.find_templates(term, lambda t: E.tmpl_text(t).startswith('pub const #')):
+                cands.append((hname, term))
+        rep.check(len(cands) == 1, 'C15.section-wiring', 'constants-hole', where, f'{len(cands)} holes of the assembled output hold the constants section', ok_detail='one hole')
+        if len(cands) == 1:
+            hname, term = cands[0]
+            ev2 = K.SkelEval(ogp, m, {}, '', None)
+            ev2.markers = False
+            try:
+                got2 = [' '.join(str(ev2.tokens(x)).split()) for x in ev2.iterable(ev2.ev(term), term)]
+                rep.check([squash(x) for x in got2] == [squash(x) for x in got], 'C15.section-wiring', 'constants-at-output', where,
+                          f'the constants put into the assembled output differ from what the section produced for the model list ({len(got2)} vs {len(got)} items; first difference: '
+                          f'{next((a + " / " + b for a, b in zip(got2 + [""] * len(got), got + [""] * len(got2)) if squash(a) != squash(b)), None)})',
+                          ok_detail=f'{len(got2)} items, identical to the section\'s')
+            except (Diverge, Unbound) as ex:
+                rep.bad('C15.section-wiring', 'constants-at-output', where, f'cannot instantiate the constants as they are put into the assembled output (`#{hname}`): {ex}', undecided=True)
